@@ -168,11 +168,6 @@ def canon_obs(q, r):
     return [3, kind, v[1]] + ([0, 0] if v[2] is None else [1, v[2]])
 
 
-def obs_list(p, acc=None):
-    """observation queries of a program in syntactic order (used to pair queries with trace entries)"""
-    return None  # traces are paired dynamically, see walk_trace
-
-
 # ------------------------------------------------------------------------------ oracle
 def eff_spec(mgr, spec):
     """the keys a manager sets, as the documentation of parallel_config / parallel_backend states them"""
@@ -770,7 +765,7 @@ def run(ctx):
                 "observations at depth 0,1,2 (%d programs); random part: %d programs up to depth 4. non-trivial = a Parallel "
                 "observation inside >= 1 block with explicit arguments or raising; distinct by canonical JSON" % (
                     len(RED_SPECS), len(RED_ARGS) + len(RED_ACTIVE), n_exh, n_rand),
-        "samples": [cases[0]["threads"][0][2] if False else cases[len(cases) // 2], cases[-1]],
+        "samples": [cases[-2], cases[-1]],
         "traces_validated_against_impl": len(flat),
         "model_evaluations": len(flat),
         "observation_distribution": dist,
